@@ -11,7 +11,7 @@ stdout last line: [{"ok":bool,"c":int,"tree":ival,"ids1":[..],"ids2":[..],"cfg_s
 import gc
 import json
 import sys
-from typing import List, Optional
+from typing import List, Optional, Tuple
 
 from jsonargparse import ArgumentParser, Namespace, lazy_instance
 
@@ -22,7 +22,10 @@ MOD = "c08_classes."
 
 def to_cfg(v):
     if isinstance(v, dict):
-        return {"class_path": MOD + v["cls"], "init_args": {k: to_cfg(x) for k, x in v["args"].items()}}
+        d = {"class_path": MOD + v["cls"], "init_args": {k: to_cfg(x) for k, x in v["args"].items()}}
+        if "dict_kwargs" in v:
+            d["dict_kwargs"] = dict(v["dict_kwargs"])
+        return d
     if isinstance(v, list):
         return [to_cfg(x) for x in v]
     return v
@@ -37,12 +40,13 @@ def mk_default(v):
 
 
 def plain(o):
+    """deep snapshot: value, type and identity of every nested container"""
     if isinstance(o, Namespace):
-        return ("ns", [(k, plain(v)) for k, v in vars(o).items()])
+        return ("ns", id(o), [(k, plain(v)) for k, v in vars(o).items()])
     if isinstance(o, dict):
-        return ("d", [(k, plain(v)) for k, v in o.items()])
+        return ("d", id(o), [(k, plain(v)) for k, v in o.items()])
     if isinstance(o, (list, tuple)):
-        return (type(o).__name__, [plain(v) for v in o])
+        return (type(o).__name__, id(o), [plain(v) for v in o])
     return (type(o).__name__, repr(o) if not isinstance(o, K.Base) else id(o))
 
 
@@ -59,7 +63,7 @@ def tree(v):
     if is_spec(v):
         ia = v.get("init_args") or Namespace()
         return {"spec": [v["class_path"].split(".")[-1], [tree(x) for _, x in items(ia)]]}
-    if isinstance(v, list):
+    if isinstance(v, (list, tuple)):
         return {"list": [tree(x) for x in v]}
     if isinstance(v, bool) or not isinstance(v, int):
         return {"i": 0}
@@ -81,14 +85,15 @@ class Walk:
                 self.ids(x, getattr(built, k), out)
             self.keep.append(built)
             out.append(self.num.setdefault(id(built), len(self.num)))
-        elif isinstance(spec, list):
-            if not isinstance(built, list) or len(built) != len(spec):
-                raise ValueError("list not instantiated element-wise")
+        elif isinstance(spec, (list, tuple)):
+            if not isinstance(built, (list, tuple)) or len(built) != len(spec):
+                raise ValueError("list/tuple not instantiated element-wise")
             for s, b in zip(spec, built):
                 self.ids(s, b, out)
 
 
-TYPES = {"base": K.Base, "optbase": Optional[K.Base], "listbase": List[K.Base]}
+TYPES = {"base": K.Base, "optbase": Optional[K.Base], "listbase": List[K.Base], "tupbase": Tuple[K.Base, int],
+         "tuptupbase": Tuple[Tuple[K.Base, int], str], "tup3base": Tuple[Tuple[Tuple[int, K.Base], List[K.Base]], int]}
 
 
 def run(case):
@@ -101,6 +106,12 @@ def run(case):
         keys = [k for k, _, _ in case["decls"]]
         before = plain(cfg)
         t = {"list": [tree(cfg[k]) for k in keys]}
+        # the other calls that are handed the configuration must leave it alone as well (only observed: the heap model
+        # has no class types); then the two instantiate_classes calls
+        p.validate(cfg)
+        d1 = p.dump(cfg)
+        if p.dump(cfg) != d1:
+            raise ValueError("dumping the same configuration twice gives two different documents")
         gc.collect()
         pre = [id(o) for o in gc.get_objects() if isinstance(o, K.Base)]
         r1 = p.instantiate_classes(cfg)
